@@ -314,6 +314,9 @@ impl Ctx {
     }
 
     pub fn finish(&mut self) -> i32 {
+        for p in HARNESS_PANICS.lock().unwrap().drain(..).take(3) {
+            self.inconclusive.push(p);
+        }
         let wall = self.started.elapsed().as_secs_f64();
         let mut evaluations = 0u64;
         let mut distinct = 0u64;
@@ -535,6 +538,8 @@ fn tally(st: &mut CheckStats, name: &str, h: u64, json_case: &str, info: &Info) 
     }
 }
 
+pub static HARNESS_PANICS: Mutex<Vec<String>> = Mutex::new(Vec::new());
+
 pub fn run_check<C: Check>(chk: &C, ctx: &mut Ctx) {
     let name = Check::name(chk);
     let total = ((chk.cases(ctx.tier) as f64) * ctx.scale).ceil() as u64;
@@ -569,7 +574,16 @@ pub fn run_check<C: Check>(chk: &C, ctx: &mut Ctx) {
                                 slot_set(shard, "C05", name, &js);
                             }
                             watch_set(shard, Some((Instant::now(), name.to_string(), js.clone())));
-                            let res = chk.check(&case);
+                            // a panic of jawk is caught inside the runner and is a result like any other;
+                            // a panic that escapes `check` is the harness' own and must never be
+                            // reported as a violation
+                            let res = match std::panic::catch_unwind(std::panic::AssertUnwindSafe(|| chk.check(&case))) {
+                                Ok(r) => r,
+                                Err(_) => {
+                                    HARNESS_PANICS.lock().unwrap().push(format!("{}: the check itself panicked on case {}", name, crate::runner::trunc(&js, 600)));
+                                    CaseResult::Discard("harness panic".into())
+                                }
+                            };
                             watch_set(shard, None);
                             let mut o = st.borrow_mut();
                             match res {
@@ -704,7 +718,14 @@ where
                             if failed_any.load(Ordering::Relaxed) {
                                 break;
                             }
-                            let (mk, res) = f(idx);
+                            let (mk, res) = match std::panic::catch_unwind(std::panic::AssertUnwindSafe(|| f(idx))) {
+                                Ok(x) => x,
+                                Err(_) => {
+                                    HARNESS_PANICS.lock().unwrap().push(format!("{}: the check itself panicked on enumeration index {}", name, idx));
+                                    let b: Box<dyn Fn() -> Value> = Box::new(|| Value::Null);
+                                    (b, CaseResult::Discard("harness panic".into()))
+                                }
+                            };
                             o.stats.evaluations += 1;
                             match res {
                                 CaseResult::Pass(info) => {
